@@ -314,3 +314,7 @@ m('c12-time-window-ignores-start', ['C12'], 'streamz/dataframe/core.py',
   "                                               agg=agg,\n                                               start=self.start,\n                                               returns_state=True,\n                                               stream_type='updating',\n                                               with_state=self.with_state)\n\n    def full(self):",
   "                                               agg=agg,\n                                               start=self.start if self.n is not None else None,\n                                               returns_state=True,\n                                               stream_type='updating',\n                                               with_state=self.with_state)\n\n    def full(self):",
   'window(value=...) ignores the start state')
+m('c13-interval-string-in-minutes', ['C13', 'C08'], 'streamz/core.py',
+  "        interval = pd.Timedelta(interval).total_seconds()",
+  "        interval = pd.Timedelta(interval).total_seconds() / 60",
+  'time strings read in the wrong unit (only the string spelling of an interval is affected)')
